@@ -139,7 +139,7 @@ def edit_feature(prev, cur):
 
 
 def _fn(kind, refs, **kw):
-    d = dict(kind=kind, where="mod", const=1, setc=None, tup=None, dflt=None, kwd=None, lam=None, refs=refs)
+    d = dict(kind=kind, where="mod", const=1, setc=None, tup=None, dflt=None, kwd=None, lam=None, nest=None, refs=refs)
     if kind == "memento":
         d["explicit"] = None
     else:
